@@ -1380,3 +1380,36 @@ def rule_annotations_paired_with_owner(check, rule):
         else:
             check.inconclusive(rule, st, 'function handed to the upgrade not understood: %s' % norm(a1)[:60], key=key)
     check.floor(rule, 'upgrades in set_default_sources', n, 1)
+
+
+def rule_disagreement_remembered(check, rule):
+    """C10.R6 (D57, known): merge folds pairwise.  When both sides annotate a parameter differently, _concile_meta answers with *no*
+    annotation -- the same value it gives when nobody annotated it -- so the next step of the fold cannot tell "they disagreed" from
+    "unannotated" and adopts the third input's annotation: merge(x: 1, x: 2, x: 3) is (x: 3), and the result depends on the order of the
+    inputs (merge(x:1, x:2, x:1) keeps 1, merge(x:1, x:1, x:2) drops it).  A conciliation whose 'disagree' outcome differs from its
+    'absent' outcome (as the one for defaults does, with None) does not have this."""
+    repo = check.repo
+    fi = repo.func('%s:_Merger._concile_meta' % SIG)
+    check.analysed(fi)
+    pos = fi.params()[0]
+    n = 0
+    for x in ast.walk(fi.node):
+        if not isinstance(x, ast.If):
+            continue
+        t = x.test
+        if not (isinstance(t, ast.Compare) and len(t.ops) == 1 and isinstance(t.ops[0], (ast.Eq, ast.NotEq))):
+            continue
+        ops = [t.left, t.comparators[0]]
+        if not all(isinstance(o, ast.Attribute) and 'annotation' in o.attr for o in ops):
+            continue
+        n += 1
+        key = 'concile-disagreement|annotation'
+        st = site_of(fi, x)
+        disagree = x.orelse if isinstance(t.ops[0], ast.Eq) else x.body
+        if not disagree:
+            check.violation(rule, st, 'when the two annotations differ nothing is recorded: the result is as unannotated as if neither side had one, and '
+                            'the next step of an n-ary merge adopts whatever the third signature says', key=key,
+                            witness="merge(s('x: 1'), s('x: 2'), s('x: 3')) is (x: 3); merge(x:1, x:2, x:1) is (x: 1) but merge(x:1, x:1, x:2) is (x)")
+        else:
+            check.holds(rule, st, 'a disagreement between the two annotations is recorded as something else than absence', key=key)
+    check.floor(rule, 'annotation agreement tests in _concile_meta', n, 1)
